@@ -161,6 +161,7 @@ def exit_checks(E, st, kind, retval, is_drop_root=False):
     """INV at a normal return, SINV after unwinding out of the root"""
     unw = kind == 'unwind'
     prim = 'unwind-exit' if unw else 'return'
+    E.view_zone = st.zone
     caller_mem = [st.objs[o] for o in sorted(st.keep) if o in st.objs]
     ret_vals = reachable_values(E, st, [retval]) if (retval is not None and not unw) else []
     survivors = reachable_values(E, st, caller_mem) + ret_vals
